@@ -1513,6 +1513,7 @@ fn main() -> std::process::ExitCode {
         kverif::scn::TRACE.store(true, Ordering::Relaxed);
     }
     payload::init(if cfg!(miri) { 1 << 11 } else { 1 << 17 });
+    payload::want_drop_probe(kverif::arg_u64(&a, "drop-probe", 0) != 0);
     fp::install();
     #[cfg(feature = "tsan")]
     kverif::tsan::install();
@@ -1674,6 +1675,7 @@ fn main() -> std::process::ExitCode {
     let hits = fp::hits_delta(&hits0);
     let mut out = J::obj();
     out.set("engine", J::s("scen"));
+    out.set("drop_probe_calls", J::U(payload::PROBE_CALLS.load(std::sync::atomic::Ordering::Relaxed)));
     out.set("seed", J::U(seed));
     out.set("families", J::A(fams.iter().map(|f| J::s(*f)).collect()));
     out.set("cases", J::U(ncases));
